@@ -1,10 +1,11 @@
-/* Simulated platform: no thread-local storage (the officially supported
-   platform/gcc_no_tls configuration), because all simulated threads are fibers
-   of one OS thread; the per-thread waiter comes from the runtime. */
+/* Simulated platform: thread-local storage as in the default gcc/clang builds (THREAD_LOCAL variables exist and
+   HAVE_THREAD_LOCAL is 1).  All simulated threads are fibers of one OS thread, so a THREAD_LOCAL variable is
+   placed in a section of its own ("sim_tls") whose contents the runtime saves and restores at every fiber
+   switch: each simulated thread sees its own zero-initialised copy.  */
 #ifndef VERIF_SIM_COMPILER_H_
 #define VERIF_SIM_COMPILER_H_
 #define INLINE __inline
 #define UNUSED __attribute__((unused))
-#define THREAD_LOCAL
-#define HAVE_THREAD_LOCAL 0
+#define THREAD_LOCAL __attribute__((section("sim_tls")))
+#define HAVE_THREAD_LOCAL 1
 #endif
